@@ -402,3 +402,81 @@ pub fn exec_drop_items() -> Vec<Item> {
         Item::new("exec_drop/3w", 50_000, 1, 2, || exec_drop_body(3)).caps(300_000, 30_000_000),
     ]
 }
+
+// ---------------------------------------------------------------------------
+// C14: the set of per-replier sub-tasks of a broadcast (wake-up protocol)
+// ---------------------------------------------------------------------------
+
+/// `plans[t]` lists the data sub-tasks thread `t` wakes (in order, repeats
+/// allowed); afterwards it wakes its own sentinel sub-task. The parent drains
+/// the scheduled sub-tasks and sleeps on its wake sink when there are none.
+/// A lost notification shows up as a deadlock; a lost or duplicated sub-task
+/// as an assertion failure.
+fn task_set_body(data_tasks: usize, plans: Vec<Vec<usize>>, discard_first: bool) {
+    use crate::util::task_set::TaskSet;
+    use diatomic_waker::WakeSink;
+    let nthreads = plans.len();
+    let mut sink = WakeSink::new();
+    let set = Arc::new(TaskSet::with_len(sink.source(), data_tasks + nthreads));
+    if discard_first {
+        // Spurious wake-ups left over from a previous broadcast are discarded.
+        set.waker_of(0).wake_by_ref();
+        set.discard_scheduled();
+        assert!(!set.has_scheduled(), "[task_set] discard_scheduled left a scheduled task");
+    }
+    let mut hs = vec![];
+    for (t, plan) in plans.iter().cloned().enumerate() {
+        let set = set.clone();
+        hs.push(shuttle::thread::spawn(move || {
+            for idx in plan {
+                set.waker_of(idx).wake_by_ref();
+            }
+            set.waker_of(data_tasks + t).wake_by_ref();
+        }));
+    }
+    let mut seen = vec![0usize; data_tasks + nthreads];
+    let mut batches = vec![];
+    shuttle::future::block_on(async {
+        loop {
+            match set.take_scheduled(1) {
+                Some(iter) => {
+                    let batch: Vec<usize> = iter.collect();
+                    let mut b = batch.clone();
+                    b.sort();
+                    b.dedup();
+                    assert_eq!(b.len(), batch.len(), "[task_set] a sub-task appears twice in one drain: {:?}", batch);
+                    for i in &batch {
+                        seen[*i] += 1;
+                    }
+                    batches.push(batch);
+                }
+                None => {
+                    if (0..nthreads).all(|t| seen[data_tasks + t] > 0) {
+                        break;
+                    }
+                    let set2 = set.clone();
+                    sink.wait_until(|| if set2.has_scheduled() { Some(()) } else { None }).await;
+                }
+            }
+        }
+    });
+    for h in hs {
+        h.join().unwrap();
+    }
+    for (t, plan) in plans.iter().enumerate() {
+        for idx in plan {
+            assert!(seen[*idx] > 0, "[task_set] sub-task {} woken by thread {} was never yielded to the parent (batches {:?})", idx, t, batches);
+        }
+    }
+    assert!(set.take_scheduled(0).is_none(), "[task_set] sub-tasks left scheduled after everything was drained");
+    obs(format!("{:?}", batches));
+}
+
+pub fn c14() -> Vec<Item> {
+    vec![
+        Item::new("task_set/1task/2wakers", 50_000, 3, 4, || task_set_body(1, vec![vec![0], vec![0]], false)).caps(300_000, 30_000_000),
+        Item::new("task_set/2tasks/2wakers", 50_000, 3, 4, || task_set_body(2, vec![vec![0, 1], vec![1, 0]], false)).caps(300_000, 30_000_000),
+        Item::new("task_set/2tasks/repeated", 50_000, 3, 4, || task_set_body(2, vec![vec![0, 0, 1], vec![1]], true)).caps(300_000, 30_000_000),
+        Item::new("task_set/3tasks/3wakers", 50_000, 2, 3, || task_set_body(3, vec![vec![0], vec![1], vec![2]], false)).caps(300_000, 30_000_000),
+    ]
+}
